@@ -1,4 +1,136 @@
 import Model.Base.Proto
+import Model.Unit.Tidy
+import Model.Spec.Tidy
 
-/-- stub: replaced when the property's driver is built -/
-def main : IO Unit := pure ()
+/-
+case <id> kind=consts
+case <id> kind=tidy v=<bits> unit=<hex> iu=<hex: implementation's unit> iv=<bits: implementation's value>
+case <id> kind=file lines=<U:unit:key=val+key=val | B:bits:unit+bits:unit ; …> q=<hexlist> pat=<hexlist> ivals=<implementation's values>
+-/
+namespace Driver.C04
+open Proto Unit.Tidy
+
+def hexF (b : F64.Bits) : String := F64.toHex (F64.canonNaN b)
+def bits (s : String) : F64.Bits := (F64.ofHex? s).getD 0
+def unhex (s : String) : Bytes := (Bytes.ofHex s).getD []
+def join (l : List String) (sep : String := ",") : String := if l.isEmpty then "-" else sep.intercalate l
+
+inductive FLine where
+  | unit (u : Bytes) (kvs : List (Bytes × Bytes))
+  | bench (ms : List (F64.Bits × Bytes))
+
+def parseLines (s : String) : List FLine :=
+  (s.splitOn ";").filterMap fun e =>
+    match e.splitOn ":" with
+    | "U" :: u :: rest =>
+      let kvs := ((":".intercalate rest).splitOn "+").filterMap fun kv =>
+        match kv.splitOn "=" with
+        | [k, v] => some (unhex k, unhex v)
+        | _ => none
+      some (.unit (unhex u) kvs)
+    | "B" :: _ =>
+      let body := (e.drop 2).toString
+      some (.bench ((body.splitOn "+").filterMap fun m =>
+        match m.splitOn ":" with
+        | [v, u] => some (bits v, unhex u)
+        | _ => none))
+    | _ => none
+
+def showValue (v : Value) : String :=
+  s!"{hexF v.value}:{v.unit.toHex}:{hexF v.origValue}:{v.origUnit.toHex}"
+
+def showReport (r : F64.Bits × Bytes × F64.Bits × Bytes) : String :=
+  s!"{hexF r.1}:{r.2.1.toHex}:{hexF r.2.2.1}:{r.2.2.2.toHex}"
+
+def metaKeys : List Bytes := [sBetter, sAssume, Bytes.ofString "foo"]
+
+/-- insertion sort on strings (canonical order of the metadata map) -/
+def sortStrings (l : List String) : List String := (l.toArray.qsort (· < ·)).toList
+
+def handleFile (l : Line) : IO Unit := do
+  let id := l.id
+  let lines := parseLines (l.getD "lines")
+  let qs := (l.hexList? "q").getD []
+  let pats := (l.hexList? "pat").getD []
+  -- model: reader
+  let results : List (List Value) := lines.filterMap fun
+    | .bench ms => some (ms.map fun (v, u) => readerValue v u)
+    | .unit _ _ => none
+  let vals := join (results.map fun r => "+".intercalate (r.map showValue)) ";"
+  IO.println s!"obs {id} shape=ok vals={vals}"
+  -- model: metadata map
+  let (mm, errs) := lines.foldl (fun (acc : MetaMap × Nat) ln =>
+    match ln with
+    | .unit u kvs => kvs.foldl (fun (a : MetaMap × Nat) (kv : Bytes × Bytes) =>
+        let (m', e) := addMeta a.1 u kv.1 kv.2
+        (m', if e then a.2 + 1 else a.2)) acc
+    | .bench _ => acc) (([] : MetaMap), 0)
+  let metas := sortStrings (mm.map fun e => s!"{e.unit.toHex}:{e.key.toHex}:{e.origUnit.toHex}:{e.value.toHex}")
+  IO.println s!"obs {id} meta={join metas} errs={errs}"
+  let showMeta (m : Option Meta) : String := match m with
+    | some e => s!"{e.origUnit.toHex}:{e.value.toHex}"
+    | none => "nil"
+  let gets := qs.map fun q => "/".intercalate (metaKeys.map fun k => showMeta (get mm q k))
+  let assumes := qs.map fun q => if getAssumption mm q then "1" else "0"
+  let betters := qs.map fun q => toString (getBetter mm q)
+  IO.println s!"obs {id} get={join gets} assume={join assumes} better={join betters}"
+  let filt (results : List (List Value)) := pats.map fun p =>
+    if results.isEmpty then "-" else
+    "/".intercalate (results.map fun r => String.ofList (r.map fun v => if unitMatch (· == p) v then '1' else '0'))
+  IO.println s!"obs {id} filt={join (filt results)}"
+  -- spec: what the property demands, from Spec.Tidy only
+  let sresults := lines.filterMap fun
+    | .bench ms => some (ms.map fun (v, u) => Spec.Tidy.report v u)
+    | .unit _ _ => none
+  let rep := join (sresults.map fun r => "+".intercalate (r.map showReport)) ";"
+  -- every unit the implementation reported must be a base unit
+  let ivals := l.getD "ivals" "-"
+  let iunits : List Bytes := if ivals == "-" then [] else
+    ((ivals.splitOn ";").flatMap (·.splitOn "+")).map fun m => unhex ((m.splitOn ":").getD 1 "")
+  let base := if iunits.all Spec.Tidy.isBase then 1 else 0
+  IO.println s!"spec {id} rep={rep} base={base} split=0"
+  -- metadata: the first field naming a unit with the same base unit and the same key wins
+  let fields : List (Bytes × Bytes × Bytes) := lines.flatMap fun
+    | .unit u kvs => kvs.map fun (k, v) => ((Spec.Tidy.tidyUnit u).1, k, v)
+    | .bench _ => []
+  let looks := qs.flatMap fun q => metaKeys.map fun k =>
+    match fields.find? (fun f => f.1 == (Spec.Tidy.tidyUnit q).1 && f.2.1 == k) with
+    | some f => f.2.2.toHex
+    | none => "nil"
+  IO.println s!"spec {id} look={join looks} metaeq=1"
+  -- filters: a `.unit:p` term selects a measurement iff p is its written or its base unit
+  let writtenRes : List (List Bytes) := lines.filterMap fun
+    | .bench ms => some (ms.map (·.2))
+    | .unit _ _ => none
+  let sfilt := pats.map fun p =>
+    if writtenRes.isEmpty then "-" else
+    "/".intercalate (writtenRes.map fun r => String.ofList (r.map fun u =>
+      if p == u || p == (Spec.Tidy.tidyUnit u).1 then '1' else '0'))
+  IO.println s!"spec {id} filt={join sfilt}"
+
+def handle (l : Line) : IO Unit := do
+  if l.kind != "case" then return
+  let id := l.id
+  match l.getD "kind" with
+  | "consts" =>
+    IO.println s!"obs {id} ns={hexF (tidy F64.one sNs).1} MB={hexF (tidy F64.one sMB).1} nsop={hexF (tidy F64.one sNsOp).1} MBs={hexF (tidy F64.one sMBs).1} e9={hexF f1e9} e6={hexF f1e6}"
+  | "tidy" =>
+    let v := bits (l.getD "v")
+    let u := unhex (l.getD "unit")
+    let (tv, tu) := tidy v u
+    let f := (tidy F64.one u).1
+    let unc := match tidyUnitUncached? u with
+      | some (uu, uf) => s!"{uu.toHex}:{hexF uf}"
+      | none => "panic"
+    IO.println s!"obs {id} tv={hexF tv} tu={tu.toHex} f={hexF f} unc={unc} memo=ok"
+    let (sv, su) := Spec.Tidy.tidy v u
+    let iu := unhex (l.getD "iu")
+    IO.println s!"spec {id} unit={su.toHex} val={hexF sv} base={if Spec.Tidy.isBase iu then 1 else 0} idem=1"
+  | "file" => handleFile l
+  | _ => pure ()
+
+end Driver.C04
+
+def main : IO Unit := do
+  let stdin ← IO.getStdin
+  Proto.forEachLine stdin fun s => Driver.C04.handle (Proto.parseLine s)
